@@ -24,6 +24,7 @@ func init() {
 
 	register("C18", &core.Rule{ID: "C18.1", Title: "single-context predicate scans all contributors", Mod: core.ModCBP, Floor: 1, Run: c18_1, Canary: c18_1Canary})
 	register("C18", &core.Rule{ID: "C18.2", Title: "export context selection", Mod: core.ModCBP, Floor: 2, Run: c18_2})
+	register("C10", &core.Rule{ID: "C10.9", Title: "export context selection: a batch fed by several request contexts is exported under the shard's own context — the one built from this combination's metadata (C10.5) — and a single-context batch under that caller's", Mod: core.ModCBP, Floor: 2, Run: c18_2})
 	register("C18", &core.Rule{ID: "C18.3", Title: "links to and from every contributor", Mod: core.ModCBP, Floor: 3, Run: c18_3})
 	register("C18", &core.Rule{ID: "C18.4", Title: "contributor tuple carries the head entry's own context", Mod: core.ModCBP, Floor: 2, Run: c18_4})
 	register("C18", &core.Rule{ID: "C18.5", Title: "sends in the export goroutine are cancellable by the same contributor", Mod: core.ModCBP, Floor: 1, Run: c11_4})
